@@ -4,7 +4,9 @@
     Statements only; each closed by [exact] of a lemma in Proofs/Round*.v.
     The model (Model/Round.v) is a transition system over any number of threads
     [nthreads c], any number of rounds, any sample sizes, any interleaving
-    ([reachable]: any sequence of labels) and any fault set ([fault c]). *)
+    ([reachable]: any sequence of labels) and any fault set ([fault c]).
+    [fixed_code c]: the configuration is the code after commit 80a110a (the
+    guard exists) and ThreadAllocInfo::current() is Some on every thread. *)
 From Coq Require Import List Arith Bool NArith.
 From DivanV Require Import Model.Round Proofs.RoundBase Proofs.RoundInv Proofs.RoundTerm Proofs.RoundAlloc Proofs.RoundEx Proofs.RoundMain Proofs.RoundMon.
 Import ListNotations.
@@ -12,7 +14,7 @@ Import ListNotations.
 (** The invariant evaluated by the exhaustive explorer ([inv_b], DESIGN.md
     Appendix A) holds in every reachable state, for every thread count. *)
 Theorem C08_invariant : forall c st,
-  1 <= nthreads c -> guard c = true -> reachable c st -> inv_b c st = true.
+  1 <= nthreads c -> fixed_code c -> reachable c st -> inv_b c st = true.
 Proof. exact invariant_reachable. Qed.
 Print Assumptions C08_invariant.
 
@@ -26,7 +28,7 @@ Print Assumptions C08_invariant.
     thread has taken its end timestamp or has already panicked.  [phase_sb] is
     the boolean form evaluated on states by the explorer. *)
 Theorem C08_phase_order : forall c st,
-  2 <= nthreads c -> guard c = true -> reachable c st ->
+  2 <= nthreads c -> fixed_code c -> reachable c st ->
   (gp st = GRun ->
    let n := ssize c (round st) in
    forall ti tj, In ti (ths st) -> In tj (ths st) ->
@@ -40,7 +42,7 @@ Print Assumptions C08_phase_order.
     live thread is between its two timestamps, every other live thread is
     between its second and third wait (positions n+2 .. 2n+5). *)
 Theorem C08_no_overlap : forall c st,
-  2 <= nthreads c -> guard c = true -> reachable c st -> gp st = GRun ->
+  2 <= nthreads c -> fixed_code c -> reachable c st -> gp st = GRun ->
   let n := ssize c (round st) in
   forall ti tj, In ti (ths st) -> In tj (ths st) ->
     panicked ti = false -> n + 3 < pc ti <= 2 * n + 4 ->
@@ -50,14 +52,14 @@ Print Assumptions C08_no_overlap.
 
 (** Deadlock freedom: a reachable state that is not final has an enabled step. *)
 Theorem C08_deadlock_free : forall c st,
-  1 <= nthreads c -> guard c = true -> reachable c st -> final st = false ->
+  1 <= nthreads c -> fixed_code c -> reachable c st -> final st = false ->
   exists l st', step c st l = Some st'.
 Proof. exact deadlock_free_reachable. Qed.
 Print Assumptions C08_deadlock_free.
 
 (** Every step strictly decreases [measure]. *)
 Theorem C08_measure_decreases : forall c st l st',
-  1 <= nthreads c -> guard c = true -> reachable c st ->
+  1 <= nthreads c -> fixed_code c -> reachable c st ->
   step c st l = Some st' -> measure c st' < measure c st.
 Proof. exact measure_decreases_reachable. Qed.
 Print Assumptions C08_measure_decreases.
@@ -68,7 +70,7 @@ Print Assumptions C08_measure_decreases.
     in range, "Divan benchmarking thread k panicked" for the least faulting
     thread k of the first faulty round otherwise. *)
 Theorem C08_panic_terminates : forall c tr st,
-  1 <= nthreads c -> guard c = true ->
+  1 <= nthreads c -> fixed_code c ->
   exec_from c (init c) tr st ->
   length tr <= measure c (init c) /\
   ((forall l, step c st l = None) -> gp st = GEnd (option_map snd (expected c))).
@@ -99,10 +101,20 @@ Theorem C08_old_deadlocks :
 Proof. exact old_deadlocks. Qed.
 Print Assumptions C08_old_deadlocks.
 
+(** A latent hazard (not reachable on Linux, where thread-local allocation info
+    always exists while a benchmark runs): if ThreadAllocInfo::current() is None
+    on one thread only, that thread skips the second wait and the round
+    deadlocks even with the guard.  T = 2, no panic at all. *)
+Theorem C08_mixed_info_deadlocks :
+  exists tr st, exec_from cfg2_noinfo1 (init cfg2_noinfo1) tr st /\
+                final st = false /\ forall l, step cfg2_noinfo1 st l = None.
+Proof. exact mixed_info_deadlocks. Qed.
+Print Assumptions C08_mixed_info_deadlocks.
+
 (** Own allocations: the sample a thread hands back holds exactly the
     operations of its own calls of the benchmarked function in this round. *)
 Theorem C08_own_allocs : forall c st i th,
-  1 <= nthreads c -> guard c = true -> reachable c st ->
+  1 <= nthreads c -> fixed_code c -> reachable c st ->
   gp st = GRun -> nth_error (ths st) i = Some th -> md th = Returned ->
   result th = Some (own_allocs c i (round st)).
 Proof. exact own_allocs_reachable. Qed.
@@ -124,7 +136,7 @@ Print Assumptions C08_own_allocs_only_own.
     execution of the model - any thread count, interleaving and fault set
     (sample size fixed for the run, as when sample_size is given). *)
 Theorem C08_log_sb_model : forall c n,
-  (forall r, ssize c r = n) -> 1 <= nthreads c -> guard c = true ->
+  (forall r, ssize c r = n) -> 1 <= nthreads c -> fixed_code c ->
   forall tr, log_sb (nthreads c) n (events c (init c) tr) = true.
 Proof. exact log_sb_model. Qed.
 Print Assumptions C08_log_sb_model.
@@ -137,7 +149,7 @@ Print Assumptions C08_hyps_log_sb.
 
 (** The hypotheses are satisfiable by non-trivial executions. *)
 Theorem C08_hyps_phase_order :
-  exists c st, 2 <= nthreads c /\ guard c = true /\ reachable c st /\ gp st = GRun /\
+  exists c st, 2 <= nthreads c /\ fixed_code c /\ reachable c st /\ gp st = GRun /\
                exists ti, In ti (ths st) /\ ssize c (round st) + 3 < pc ti.
 Proof. exact phase_order_hyps. Qed.
 Print Assumptions C08_hyps_phase_order.
